@@ -75,6 +75,9 @@ def _(w, e):
     else:
         obj = [need(w, h) for h in root["hs"]]
     fn = SPECS[e["fn"]][0]
+    if e.get("via") == "method" and not isinstance(obj, list):
+        # the shortcut spelling  obj.get_x(...)  of  sdn.get_x(obj, ...)
+        fn = (lambda f: (lambda o, *a, **k: getattr(o, f)(*a, **k)))(fn.__name__)
     base = {}
     if e.get("sel"):
         base["selection"] = getattr(sdn, e["sel"])
@@ -134,6 +137,8 @@ class FGen:
         if haskey:
             ev["key"] = r.choice(KEYS)
         ev["pseed"] = r.randint(0, 10 ** 9)
+        if root["r"] in ("h", "occ") and r.random() < 0.3:
+            ev["via"] = "method"
         return ev
 
 
